@@ -37,7 +37,8 @@ func Run() (err error) {
 	files := []string{"-"}
 	if pflag.NArg() < 1 {
 		if !cfg.quiet {
-			fmt.Println("no configuration specified, reading from standard input...")
+			// (Not on stdout: with -p, stdout holds a configuration.)
+			fmt.Fprintln(os.Stderr, "no configuration specified, reading from standard input...")
 		}
 	} else {
 		files = make([]string, pflag.NArg())
